@@ -1,4 +1,7 @@
-import Bifrost.Lemmas.SigBase
-/-! Registry-side invariants (C24, C25). -/
-namespace Bifrost
-end Bifrost
+import Bifrost.Lemmas.SigRegMain
+import Bifrost.Lemmas.SigRegZero
+/-! Registry-side invariants (C24, C25). The development is split over
+`SigBase` (getter/setter lemmas), `SigRegInv` (the invariant `SigReg.Inv` and the frame lemma),
+`SigRegFrame` (session-internal and listener-internal events), `SigRegListen` (`lreg`, `lend`),
+`SigRegInit` (`init`), `SigRegEnd` (`end_`), `SigRegMain` (`Reachable s → Inv s` and the derived
+observations), `SigRegZero` (`0` is never a wanted/announced peer id). -/
